@@ -19,7 +19,7 @@ PROP = "C15"
 def translate():
     from translator import registry
 
-    return registry.generate("Transitions", "Wiring", "Blocks")
+    return registry.generate("Transitions", "Wiring", "Blocks", "Constants", "KernelsMultiscale")
 
 
 _CACHE = {}
@@ -337,6 +337,137 @@ def check_case(ctx, report, left, right, pipe, lo, hi, label, machine=None):
                             f"changing only the {side} mask changed the {other} image/mask seen at scale(s) {lv}")
 
 
+def _exact(a):
+    """numpy float array -> nested lists of Fractions / nan (what the translator's evaluator works on)"""
+    from translator import pyarr
+
+    return [[pyarr.NAN if np.isnan(v) else Fraction(float(v)) for v in row] for row in np.asarray(a, dtype=float)]
+
+
+def _same_cells(a, b):
+    from translator import pyarr
+
+    if len(a) != len(b):
+        return False
+    for ra, rb in zip(a, b):
+        if len(ra) != len(rb):
+            return False
+        for x, y in zip(ra, rb):
+            if pyarr.is_nan(x) != pyarr.is_nan(y) or (not pyarr.is_nan(x) and x != y):
+                return False
+    return True
+
+
+KERNEL_SHAPES = [(103, 3), (3, 102), (101, 5), (5, 104), (100, 4), (1, 1), (1, 7), (3, 3), (5, 5), (4, 9), (102, 102)]
+
+
+def kernel_cross_check(ctx, report, status):
+    """T15 (multiscale): the real `disparity_range` / `mask_invalid_disparities` against the translator's exact reading of
+    their source (the statement list `Generated/KernelsMultiscale.lean` is printed from; Lean's own reading of that text is
+    checked at build time by the generated `example`s).  Compared: both returned maps, their shape, the disparity map
+    and the validity mask AFTER the call; user bounds given as arrays with NaN so that the four hoisted scalars differ;
+    factor 1 (early return) included.  The scalar glue kernels are compared with CPython on the same expression text."""
+    import random
+    import types
+
+    from translator import gen_blocks, gen_constants, gen_kernels_multiscale as gkm, pyarr, pyexpr
+
+    try:
+        fns = gkm.functions()
+        ks = gkm.glue_kernels()
+        t8 = gen_blocks.extract()
+        consts = {k: v for k, v in gen_constants.extract().items() if isinstance(v, int)}
+    except Exception:  # already reported by build_and_audit (translate())  # pylint: disable=broad-except
+        return
+    fn, mi = fns["disparityRange"], fns["maskInvalidDisparities"]
+    rng = random.Random(1515 + ctx.seed)
+    shapes = KERNEL_SHAPES + [None] * ctx.n(55, 400)
+    n_all_invalid = 0
+    for idx, shape in enumerate(shapes):
+        d = gen_direct(rng, shape)
+        rows, cols = d["shape"]
+        w, marge = d["window_size"], d["marge"]
+        f = 1 if idx % 7 == 3 else d["f"]
+        disp, flags = np.array(d["disp"]), np.array(d["flags"])
+        if idx % 5 == 1 and rows >= w and cols >= w:  # a whole window (and more) invalid
+            r0, c0 = rng.randrange(rows - w + 1), rng.randrange(cols - w + 1)
+            flags[max(r0 - 1, 0):r0 + w + 1, max(c0 - 1, 0):c0 + w + 1] |= rng.choice([1, 2, 64, 128, 256, 512])
+            n_all_invalid += 1
+        if idx % 11 == 5:
+            flags[:, :] |= 64  # everything invalid
+        if idx % 6 == 2:  # a NaN disparity on a pixel that is not flagged invalid (boundary of the theorems' `hnum`)
+            disp[rng.randrange(rows), rng.randrange(cols)] = np.nan
+        dmin = [d["user_min"], d["user_min"] - rng.choice([0, 1.5, 2]), float("nan")]
+        dmax = [d["user_max"], float("nan"), d["user_max"] + rng.choice([0, 0.5, 3])]
+        users = {"nanmin_disp_min": Fraction(min(dmin[:2])), "nanmax_disp_min": Fraction(max(dmin[:2])),
+                 "nanmin_disp_max": Fraction(min(dmax[0], dmax[2])), "nanmax_disp_max": Fraction(max(dmax[0], dmax[2]))}
+        dtype = rng.choice([np.float32, np.float64])
+        try:
+            mn, mx, disp_after, flags_after = md.disparity_range_raw(disp, flags, w, marge, f, dmin, dmax, dtype=dtype)
+            real = ("ok", _exact(mn), _exact(mx))
+        except Exception as exc:  # pylint: disable=broad-except
+            real = ("raised", type(exc).__name__)
+            disp_after, flags_after = np.array(disp, dtype=dtype), flags
+        exact_in = _exact(np.array(disp, dtype=dtype))
+        st = pyarr.PStore([exact_in])
+        try:
+            a, b, shp = gkm.evaluate_range(fn, mi, st, rows, cols, 0, flags.tolist(), {"window_size": w, "marge": marge, "scale_factor": f},
+                                           users, consts, t8)
+            mine = ("ok", st.arr[a], st.arr[b])
+        except (ValueError, IndexError) as exc:
+            mine = ("raised", type(exc).__name__)
+        report.translator_checks += 1
+        what = f"a {rows}x{cols} level, window {w}, marge {marge}, factor {f}"
+        if real[0] != mine[0]:
+            status.problem("translator", f"translated disparity_range on {what}: real function {real[0]} ({real[1] if real[0] == 'raised' else ''}), "
+                           f"evaluator {mine[0]} ({mine[1] if mine[0] == 'raised' else ''})")
+            return
+        if real[0] == "ok" and not (_same_cells(real[1], mine[1]) and _same_cells(real[2], mine[2])):
+            status.problem("translator", f"translated disparity_range evaluates differently from the real function on {what} "
+                           f"(min equal: {_same_cells(real[1], mine[1])}, max equal: {_same_cells(real[2], mine[2])})")
+            return
+        if not _same_cells(_exact(disp_after), st.arr[0]) or not np.array_equal(flags_after, flags):
+            status.problem("translator", f"disparity_range modified its input on {what}, the translated program does not")
+            return
+        if idx % 4 == 0:  # mask_invalid_disparities on its own: result, input afterwards, fresh memory
+            out, after, shares = md.mask_invalid_raw(disp, flags, dtype=dtype)
+            st2 = pyarr.PStore([exact_in])
+            k = gkm.evaluate_mask_invalid(mi, st2, rows, cols, 0, flags.tolist(), consts)
+            report.translator_checks += 1
+            if not _same_cells(_exact(out), st2.arr[k]) or not _same_cells(_exact(after), st2.arr[0]) or shares:
+                status.problem("translator", f"translated mask_invalid_disparities differs from the real function on {what} "
+                               f"(shares memory with its input: {shares})")
+                return
+    report.count("kernel_cross_check_maps", len(shapes))
+    report.count("kernel_cross_check_all_invalid_window", n_all_invalid)
+    # scalar glue: pyexpr's evaluator against CPython on the expression text itself
+    class _Sel:  # left_img["disparity"].sel(band_disp=…)
+        def __init__(self, lo, hi):
+            self.v = {"min": lo, "max": hi}
+
+        def sel(self, band_disp):
+            return self.v[band_disp]
+
+    for _ in range(40):
+        lo, hi = Fraction(rng.randrange(-90, 10), rng.choice([1, 2, 4])), Fraction(rng.randrange(-10, 90), rng.choice([1, 2, 4]))
+        f, n = rng.choice([2, 2, 3, 4, 5]), rng.choice([2, 3, 4])
+        me = types.SimpleNamespace(scale_factor=f, num_scales=n, disp_min=lo, disp_max=hi, right_disp_min=-hi, right_disp_max=-lo)
+        env = {"left_img": {"disparity": _Sel(lo, hi)}, "self": me}
+        for name, k in ks.items():
+            py = eval(k.source, {"__builtins__": {}}, env)  # pylint: disable=eval-used
+            if name.startswith("prepareBound"):
+                args = [lo if name.endswith("Min") else hi, f ** n]
+            elif name.startswith("prepareRight"):
+                args = [lo, hi]
+            else:
+                args = [{"mcPrepareMin": lo, "mcPrepareMax": hi, "mcPrepareRightMin": -hi, "mcPrepareRightMax": -lo}[name], f]
+            res, vals = pyexpr.evaluate(k, *args)
+            report.translator_checks += 1
+            if res != "ok" or Fraction(vals[0]) != Fraction(py):
+                status.problem("translator", f"glue kernel {name}: evaluator gives {res} {vals}, CPython gives {py} on {args}")
+                return
+
+
 DIRECT_SHAPES_QUICK = [(103, 7), (5, 205), (102, 3), (3, 102), (100, 12), (101, 104)]
 DIRECT_SHAPES_THOROUGH = [(3, 3), (5, 5), (99, 4), (4, 101), (201, 6), (6, 203), (104, 104), (205, 103), (7, 302)]
 
@@ -366,8 +497,14 @@ def gen_direct(rng, shape=None):
     disp[inv] = sentinel
     lo = -rng.choice([2, 3, 7]) / rng.choice([1, 2])
     hi = rng.choice([2, 3, 7]) / rng.choice([1, 2])
-    return {"kind": "direct", "shape": [rows, cols], "window_size": w, "marge": rng.choice([0, 1, 2]),
-            "f": rng.choice([2, 2, 3]), "user_min": lo, "user_max": hi, "disp": disp, "flags": flags}
+    out = {"kind": "direct", "shape": [rows, cols], "window_size": w, "marge": rng.choice([0, 1, 2]),
+           "f": rng.choice([2, 2, 3]), "user_min": lo, "user_max": hi, "disp": disp, "flags": flags}
+    # the user bounds as ARRAYS (`disp_min: np.ndarray`): the interval is [nanmin(disp_min), nanmax(disp_max)], so the other
+    # entries (and a NaN) must not matter; drawn last so that the rest of the case does not depend on it
+    spread = rng.choice([0, 0, 1, 2.5])
+    out["disp_min_arr"] = [lo + spread, lo, float("nan")] if spread else lo
+    out["disp_max_arr"] = [hi - spread, float("nan"), hi] if spread else hi
+    return out
 
 
 def check_direct(ctx, report, d, label):
@@ -378,7 +515,10 @@ def check_direct(ctx, report, d, label):
     case = {"label": label, "kind": "direct", "shape": d["shape"], "window_size": w, "marge": d["marge"], "f": f,
             "user": [d["user_min"], d["user_max"]], "seed": ctx.seed}
     try:
-        mn, mx = md.disparity_range_direct(d["disp"], d["flags"], w, d["marge"], f, d["user_min"], d["user_max"])
+        mn, mx = md.disparity_range_direct(d["disp"], d["flags"], w, d["marge"], f, d.get("disp_min_arr", d["user_min"]),
+                                           d.get("disp_max_arr", d["user_max"]))
+        if isinstance(d.get("disp_min_arr"), list):
+            report.count("direct_user_bounds_as_arrays")
     except Exception as exc:  # pylint: disable=broad-except
         report.case(key=json.dumps([label, d["shape"], w, d["marge"], f]), nontrivial=True, sample={"shape": d["shape"]})
         report.hit("finer_interval_rule")
@@ -443,6 +583,7 @@ def check_history(ctx, report, gs_a, gs_b):
 
 def run(ctx, report, status):
     translator_cross_check(report, status)
+    kernel_cross_check(ctx, report, status)
     report.rule = (
         "real pandora.run on small pairs with a multiscale step (num_scales 2-3, scale_factor 2-3, marge 0-2, mono/multiband, "
         "with/without masks, optional steps around it) on a machine whose callbacks record image sizes, interval grids and the "
@@ -451,7 +592,9 @@ def run(ctx, report, status):
         "(pipeline, shape, interval). History: two different multiscale pipelines run one after the other on one machine object, the second judged like a fresh run. Direct: the real disparity_range on synthetic coarse levels (integer/quarter disparities, "
         "invalid blobs on borders and chunk boundaries with NaN/sentinel disparities, information bits, windows 1/3/5, shapes "
         "straddling the chunk size 100: 102x3, 103x7, 5x205, 101x104...) against the model, the model through the chunk loop of "
-        "the source and the specification; non-trivial = a valid interior pixel"
+        "the source and the specification (user bounds also given as arrays with NaN); non-trivial = a valid interior pixel. "
+        "Translator: the exact evaluator of the statement list Generated/KernelsMultiscale.lean is printed from against the real "
+        "disparity_range / mask_invalid_disparities on >= 66 levels (straddling 100, window 1, whole windows invalid, factor 1)"
     )
     rng = ctx.rng
     for name, case in core.load_corpus(PROP):
